@@ -38,6 +38,9 @@ pub struct SInterp<'c, K: KeyT> {
     leak_ok: bool,
     /// per set: never given an element or a capacity (C03: it must own no block)
     pristine: [bool; 2],
+    /// false when the case runs with inconsistent Hash / Eq answers (C05): only the safety subset
+    /// is judged and the models are re-synchronised to the observed contents after every step
+    lawful: bool,
 }
 
 fn plan_h(case: &Case, prefix: &str) -> Plan {
@@ -59,6 +62,7 @@ where
         let pa = plan_h(case, "");
         let pb = plan_h(case, "b_");
         world::with(|w| w.default_plan = pa);
+        crate::plan::setup_chaos(case);
         let a = Set::with_capacity_and_hasher_in(case.h("cap") as usize, PlanBuildHasher::new(pa), CheckAlloc);
         let b = Set::with_capacity_and_hasher_in(case.h("b_cap") as usize, PlanBuildHasher::new(pb), CheckAlloc);
         SInterp {
@@ -72,6 +76,7 @@ where
             out: Outcome::default(),
             leak_ok: false,
             pristine: [case.h("cap") == 0, case.h("b_cap") == 0],
+            lawful: case.h("chaos") == 0,
         }
     }
 
@@ -861,9 +866,18 @@ where
                 let Some(k) = s.set.verif_bucket(i) else {
                     bad!("C02", "full-slot-without-element", "slot {i}");
                 };
-                d.check_slot(i, s.plan.hash(k.id() as u64)).map_err(|b| ("C07", b.1, b.2))?;
+                k.check("stored element");
+                if self.lawful {
+                    d.check_slot(i, s.plan.hash(k.id() as u64)).map_err(|b| ("C07", b.1, b.2))?;
+                }
             }
             let mut got: Vec<(u32, u32)> = s.set.iter().map(|k| (k.id(), k.gen())).collect();
+            if got.len() != s.set.len() {
+                bad!(if self.lawful { "C09" } else { "C05" }, "len-vs-iter", "len() {} but iter() yields {}", s.set.len(), got.len());
+            }
+            if !self.lawful {
+                continue;
+            }
             got.sort_unstable();
             let mut want = s.model.clone();
             want.sort_unstable();
@@ -888,7 +902,19 @@ where
     }
 
     fn to_violation(&self, step: usize, b: Bad) -> Violation {
+        if !self.lawful && b.0 != "C05" {
+            return Violation { property: "C05", kind: format!("chaos:{}", b.1), step, detail: b.2 };
+        }
         Violation { property: b.0, kind: b.1.to_string(), step, detail: b.2 }
+    }
+
+    /// Model := observed contents (after unspecified results under inconsistent Hash / Eq).
+    fn resync(&mut self) {
+        let _q = Quiet::new();
+        for s in self.slots.iter_mut() {
+            s.model = s.set.iter().map(|k| (k.id(), k.gen())).collect();
+            s.plan = s.set.hasher().plan;
+        }
     }
 
     pub fn step(&mut self, step: usize, op: &Op) -> Result<(), Violation> {
@@ -907,13 +933,22 @@ where
             Err(payload) => {
                 let msg = world::last_panic_message().unwrap_or_else(|| "<no message>".into());
                 drop(payload);
-                return Err(Violation { property: "C02", kind: "unexpected-panic".into(), step, detail: format!("operation panicked: {msg}") });
+                return Err(Violation { property: if self.lawful { "C02" } else { "C05" }, kind: "unexpected-panic".into(), step, detail: format!("operation panicked: {msg}") });
             }
-            Ok(Err(b)) => return Err(self.to_violation(step, b)),
+            Ok(Err(b)) => {
+                // inconsistent Hash / Eq answers: results are unspecified, only the safety subset counts
+                if self.lawful || matches!(b.0, "C02" | "C03" | "C05" | "C13") {
+                    return Err(self.to_violation(step, b));
+                }
+                self.resync();
+            }
             Ok(Ok(())) => {}
         }
         if let Err(b) = self.check_state() {
             return Err(self.to_violation(step, b));
+        }
+        if !self.lawful {
+            self.resync();
         }
         let after = Self::dump_of(&self.slots[self.cur].set);
         let clear_like = matches!(op.code, ops::CLEAR | ops::DRAIN | ops::SWAP | ops::CLONE | ops::REBUILD | ops::ITER | ops::ASSIGN);
@@ -1122,8 +1157,9 @@ where
         world::with(|w| w.quiet = 0);
         return out;
     }
+    let chaos = case.h("chaos") != 0;
     let (mut out, v) = it.finish(steps);
-    out.violation = v;
+    out.violation = v.map(|v| if chaos && v.property != "C05" { Violation { property: "C05", kind: format!("chaos:{}", v.kind), ..v } } else { v });
     out.steps = steps;
     out
 }
